@@ -50,6 +50,21 @@ def same_graph(prog: Program, rep, RID: str):
         if isinstance(n, ast.Call) and isinstance(n.func, ast.Attribute) and isinstance(n.func.value, ast.Name) and n.func.value.id == src and \
                 n.func.attr in ("add_edge", "add_node", "remove_edge", "remove_node", "add_edges_from", "remove_nodes_from", "remove_edges_from", "clear"):
             muts.append((n, n, -1))
+    # `for u, v, data in <copy>.edges(data=True): data[k] = value` writes <copy>[u][v][k]
+    for lp in [n for n in walk_no_nested(f.node) if isinstance(n, ast.For)]:
+        it = lp.iter
+        if isinstance(it, ast.Call) and isinstance(it.func, ast.Attribute) and it.func.attr == "edges" and norm(it.func.value) == src and \
+                any(k.arg == "data" and isinstance(k.value, ast.Constant) and k.value.value is True for k in it.keywords) and \
+                isinstance(lp.target, ast.Tuple) and len(lp.target.elts) == 3 and isinstance(lp.target.elts[2], ast.Name):
+            alias = lp.target.elts[2].id
+            for n in ast.walk(lp):
+                if isinstance(n, ast.Assign):
+                    for t in n.targets:
+                        if isinstance(t, ast.Subscript) and isinstance(t.value, ast.Name) and t.value.id == alias:
+                            muts.append((n, t, 3))
+                if isinstance(n, ast.Call) and isinstance(n.func, ast.Attribute) and isinstance(n.func.value, ast.Name) and n.func.value.id == alias and \
+                        n.func.attr in ("update", "pop", "clear", "setdefault", "popitem"):
+                    muts.append((n, n, -1))
     bad = [m for m in muts if not (m[2] == 3 and norm(m[1].slice) == "self.flow_attr")]
     if muts and not bad:
         rep.ok(RID, key, f"deep copy of the input; only `{src}[u][v][flow_attr] = value` item assignments", f.loc(), sample={"writes": [norm(m[0])[:80] for m in muts]})
